@@ -2,6 +2,8 @@ package main
 
 import (
 	"bufio"
+	"crypto/sha256"
+	"encoding/hex"
 	"fmt"
 	"go/ast"
 	"go/parser"
@@ -9,6 +11,7 @@ import (
 	"os"
 	"path/filepath"
 	"sort"
+	"strconv"
 	"strings"
 )
 
@@ -216,6 +219,24 @@ func (o *out) c14CallArgs(dir, recv, name, callee string, want []string, coqName
 		}
 	}
 	o.f("Definition %s : bool := %v. (* %s:%s.%s : %s(%s) *)\n", coqName, ok, dir, recv, name, callee, strings.Join(got, ", "))
+}
+
+// c14CallArgIs: bool — argument #idx of the first call to callee prints as want
+func (o *out) c14CallArgIs(dir, recv, name, callee string, idx int, want, coqName string) {
+	p, fd := findFunc(dir, recv, name)
+	if fd == nil {
+		o.brokenDef(coqName, "function "+dir+":"+recv+"."+name+" not found")
+		return
+	}
+	got, seen := "", false
+	ast.Inspect(fd.Body, func(x ast.Node) bool {
+		if ce, ok := x.(*ast.CallExpr); ok && !seen && printNode(p.fset, ce.Fun) == callee && len(ce.Args) > idx {
+			seen = true
+			got = c14norm(printNode(p.fset, ce.Args[idx]))
+		}
+		return true
+	})
+	o.f("Definition %s : bool := %v. (* %s:%s.%s : %s argument %d is `%s` *)\n", coqName, seen && got == want, dir, recv, name, callee, idx, got)
 }
 
 // c14ConstArg: integer value of argument #idx of the first call to callee
@@ -571,6 +592,467 @@ func (o *out) c14GoDefers(dir, recv, name, deferred, call, coqName string) {
 	o.f("Definition %s : bool := %v. (* %s:%s.%s : go func() { defer %s; %s } *)\n", coqName, ok, dir, recv, name, deferred, call)
 }
 
+
+// ---- process-level shutdown (cmdline/servecmd, server/daemon): statement-level translation into thread programs ----------
+//
+// A function body becomes a list of items (kind, ops):
+//   kind 0: the ops are calls made directly, in order, on the goroutine running the function
+//   kind 1: d.eg.Go(func() error { ... })  — a new MEMBER of the errgroup runs the ops
+//   kind 3: the same inside `for ... range d.listeners` — one member per listener
+//   kind 2: go f(...) / go func() { ... }() — a new goroutine that is NOT a member of the errgroup
+// ops are indices into the vocabulary given by the caller (printed callee -> code). Deferred calls of the function run
+// after its last statement (LIFO). Statements without a vocabulary call are dropped. A vocabulary call under an if / else
+// / switch / loop other than `range d.listeners` is listed in <name>_guards, which the model requires to be empty.
+
+func c14FindFuncInFile(dir, file, name string) (*pkgInfo, *ast.FuncDecl) {
+	p := loadPkg(dir)
+	f, ok := p.files[file]
+	if !ok {
+		return p, nil
+	}
+	for _, d := range f.Decls {
+		if fd, ok := d.(*ast.FuncDecl); ok && fd.Name.Name == name && fd.Body != nil {
+			return p, fd
+		}
+	}
+	return p, nil
+}
+
+type c14Item struct {
+	kind int
+	ops  []int
+}
+
+type c14ProgTr struct {
+	p      *pkgInfo
+	vocab  map[string]int
+	items  []c14Item
+	defers []c14Item
+	guards []string
+	errs   []string
+}
+
+// calls of the vocabulary inside n, in source order; function literals are not entered
+func (t *c14ProgTr) calls(n ast.Node) []int {
+	var ops []int
+	if n == nil {
+		return nil
+	}
+	ast.Inspect(n, func(x ast.Node) bool {
+		switch y := x.(type) {
+		case *ast.FuncLit:
+			if t.hasVocab(y.Body) {
+				t.errs = append(t.errs, "function literal with modelled calls used as a value")
+			}
+			return false
+		case *ast.CallExpr:
+			// arguments are evaluated before the call
+			for _, a := range y.Args {
+				ops = append(ops, t.calls(a)...)
+			}
+			if sel, ok := y.Fun.(*ast.SelectorExpr); ok {
+				ops = append(ops, t.calls(sel.X)...)
+			}
+			if c, ok := t.vocab[printNode(t.p.fset, y.Fun)]; ok {
+				ops = append(ops, c)
+			}
+			return false
+		}
+		return true
+	})
+	return ops
+}
+
+func (t *c14ProgTr) hasVocab(n ast.Node) bool {
+	found := false
+	if n == nil {
+		return false
+	}
+	ast.Inspect(n, func(x ast.Node) bool {
+		if ce, ok := x.(*ast.CallExpr); ok {
+			if _, ok := t.vocab[printNode(t.p.fset, ce.Fun)]; ok {
+				found = true
+			}
+		}
+		return !found
+	})
+	return found
+}
+
+// body of a closure that becomes a thread: flat list of ops; nested spawns are not supported
+func (t *c14ProgTr) closureOps(b *ast.BlockStmt) []int {
+	var ops, deferred []int
+	var walk func(list []ast.Stmt)
+	walk = func(list []ast.Stmt) {
+		for _, s := range list {
+			switch x := s.(type) {
+			case *ast.DeferStmt:
+				if c, ok := t.vocab[printNode(t.p.fset, x.Call.Fun)]; ok {
+					deferred = append([]int{c}, deferred...)
+				}
+			case *ast.GoStmt:
+				if t.hasVocab(x) {
+					t.errs = append(t.errs, "goroutine with modelled calls started inside a closure")
+				}
+			case *ast.IfStmt:
+				if x.Init != nil {
+					ops = append(ops, t.calls(x.Init)...)
+				}
+				ops = append(ops, t.calls(x.Cond)...)
+				if t.hasVocab(x.Body) || (x.Else != nil && t.hasVocab(x.Else)) {
+					t.guards = append(t.guards, c14norm(printNode(t.p.fset, x.Cond)))
+					walk(x.Body.List)
+					if eb, ok := x.Else.(*ast.BlockStmt); ok {
+						walk(eb.List)
+					} else if x.Else != nil {
+						walk([]ast.Stmt{x.Else})
+					}
+				}
+			case *ast.BlockStmt:
+				walk(x.List)
+			case *ast.ForStmt, *ast.RangeStmt, *ast.SwitchStmt, *ast.SelectStmt, *ast.TypeSwitchStmt:
+				if t.hasVocab(x) {
+					t.errs = append(t.errs, "loop / switch with modelled calls inside a closure")
+				}
+			default:
+				ops = append(ops, t.calls(s)...)
+			}
+		}
+	}
+	walk(b.List)
+	return append(ops, deferred...)
+}
+
+func (t *c14ProgTr) walk(list []ast.Stmt, perListener bool, guarded bool) {
+	emit := func(it c14Item) {
+		if len(it.ops) > 0 {
+			t.items = append(t.items, it)
+		}
+	}
+	for _, s := range list {
+		switch x := s.(type) {
+		case *ast.ExprStmt:
+			if ce, ok := x.X.(*ast.CallExpr); ok && printNode(t.p.fset, ce.Fun) == "d.eg.Go" && len(ce.Args) == 1 {
+				if fl, ok := ce.Args[0].(*ast.FuncLit); ok {
+					k := 1
+					if perListener {
+						k = 3
+					}
+					emit(c14Item{k, t.closureOps(fl.Body)})
+					continue
+				}
+			}
+			emit(c14Item{0, t.calls(s)})
+		case *ast.GoStmt:
+			if fl, ok := x.Call.Fun.(*ast.FuncLit); ok {
+				emit(c14Item{2, t.closureOps(fl.Body)})
+			} else if c, ok := t.vocab[printNode(t.p.fset, x.Call.Fun)]; ok {
+				emit(c14Item{2, []int{c}})
+			}
+		case *ast.DeferStmt:
+			if fl, ok := x.Call.Fun.(*ast.FuncLit); ok {
+				if ops := t.closureOps(fl.Body); len(ops) > 0 {
+					t.defers = append([]c14Item{{0, ops}}, t.defers...)
+				}
+			} else if c, ok := t.vocab[printNode(t.p.fset, x.Call.Fun)]; ok {
+				t.defers = append([]c14Item{{0, []int{c}}}, t.defers...)
+			}
+		case *ast.IfStmt:
+			var ops []int
+			if x.Init != nil {
+				ops = append(ops, t.calls(x.Init)...)
+			}
+			ops = append(ops, t.calls(x.Cond)...)
+			emit(c14Item{0, ops})
+			inner := t.hasVocab(x.Body) || (x.Else != nil && t.hasVocab(x.Else))
+			if inner {
+				t.guards = append(t.guards, c14norm(printNode(t.p.fset, x.Cond)))
+				t.walk(x.Body.List, perListener, true)
+				switch e := x.Else.(type) {
+				case *ast.BlockStmt:
+					t.walk(e.List, perListener, true)
+				case *ast.IfStmt:
+					t.walk([]ast.Stmt{e}, perListener, true)
+				}
+			}
+		case *ast.BlockStmt:
+			t.walk(x.List, perListener, guarded)
+		case *ast.RangeStmt:
+			if !t.hasVocab(x.Body) {
+				continue
+			}
+			if printNode(t.p.fset, x.X) == "d.listeners" {
+				t.walk(x.Body.List, true, guarded)
+			} else {
+				t.guards = append(t.guards, "range "+c14norm(printNode(t.p.fset, x.X)))
+				t.walk(x.Body.List, perListener, true)
+			}
+		case *ast.ForStmt:
+			if t.hasVocab(x.Body) {
+				t.guards = append(t.guards, "for "+c14norm(printNode(t.p.fset, x.Cond)))
+				t.walk(x.Body.List, perListener, true)
+			}
+		case *ast.SwitchStmt, *ast.SelectStmt, *ast.TypeSwitchStmt:
+			if t.hasVocab(x) {
+				t.errs = append(t.errs, "switch / select with modelled calls")
+			}
+		default: // assignments, declarations, returns, sends ...
+			emit(c14Item{0, t.calls(s)})
+		}
+	}
+}
+
+func c14ItemsCoq(items []c14Item) string {
+	var ps []string
+	for _, it := range items {
+		var os []string
+		for _, c := range it.ops {
+			os = append(os, strconv.Itoa(c))
+		}
+		ps = append(ps, fmt.Sprintf("(%d, [%s])", it.kind, strings.Join(os, "; ")))
+	}
+	return "[" + strings.Join(ps, "; ") + "]"
+}
+
+// c14Prog: emit <coqName> : list (Z * list Z) and <coqName>_guards : list String.string
+func (o *out) c14Prog(p *pkgInfo, fd *ast.FuncDecl, where string, vocab map[string]int, coqName string) {
+	if fd == nil {
+		o.brokenDef(coqName, "function "+where+" not found")
+		return
+	}
+	t := &c14ProgTr{p: p, vocab: vocab}
+	t.walk(fd.Body.List, false, false)
+	if len(t.errs) > 0 {
+		o.brokenDef(coqName, where+": "+strings.Join(t.errs, "; "))
+		return
+	}
+	items := append(t.items, t.defers...)
+	var names []string
+	for n, c := range vocab {
+		names = append(names, fmt.Sprintf("%d=%s", c, n))
+	}
+	sort.Strings(names)
+	o.f("Definition %s : list (Z * list Z) := %s.\n(* %s as (kind, calls): kind 0 direct, 1 errgroup member, 3 errgroup member per listener, 2 plain goroutine; calls: %s *)\n",
+		coqName, c14ItemsCoq(items), where, strings.Join(names, " "))
+	var gs []string
+	for _, g := range t.guards {
+		gs = append(gs, fmt.Sprintf("%q%%string", g))
+	}
+	o.f("Definition %s_guards : list String.string := [%s]. (* conditions / loops under which one of those calls sits *)\n", coqName, strings.Join(gs, "; "))
+}
+
+var c14SigNum = map[string]int{"syscall.SIGHUP": 1, "syscall.SIGINT": 2, "os.Interrupt": 2, "syscall.SIGQUIT": 3, "syscall.SIGKILL": 9, "os.Kill": 9,
+	"syscall.SIGUSR1": 10, "syscall.SIGUSR2": 12, "syscall.SIGPIPE": 13, "syscall.SIGALRM": 14, "syscall.SIGTERM": 15}
+
+// c14Signals: cmdline/servecmd/signals_unix.go watchSignals — the notified signals, the channel capacity, whether the
+// receive sits in an endless loop, and the switch as a decision function  sig_action sig already = (action, already').
+// action: 0 nothing, 1 `go srv.Close()` (asynchronous graceful shutdown), 3 srv.Close() called on the watcher itself,
+// 2 os.Exit(sig_exit_code)
+func (o *out) c14Signals() {
+	const dir, file, name = "cmdline/servecmd", "signals_unix.go", "watchSignals"
+	p, fd := c14FindFuncInFile(dir, file, name)
+	if fd == nil {
+		o.brokenDef("sig_action", dir+"/"+file+": "+name+" not found")
+		return
+	}
+	// signal.Notify(ch, ...)
+	var sigs []string
+	notified := false
+	capacity := int64(-1)
+	ast.Inspect(fd.Body, func(x ast.Node) bool {
+		ce, ok := x.(*ast.CallExpr)
+		if !ok {
+			return true
+		}
+		switch printNode(p.fset, ce.Fun) {
+		case "signal.Notify":
+			notified = true
+			for _, a := range ce.Args[1:] {
+				if n, ok := c14SigNum[printNode(p.fset, a)]; ok {
+					sigs = append(sigs, strconv.Itoa(n))
+				} else {
+					sigs = append(sigs, "(-1)")
+				}
+			}
+		case "make":
+			if len(ce.Args) == 2 && strings.HasPrefix(printNode(p.fset, ce.Args[0]), "chan os.Signal") {
+				if v, err := evalConst(dir, ce.Args[1], 0); err == nil {
+					capacity = v.i
+				}
+			}
+		}
+		return true
+	})
+	if !notified {
+		o.brokenDef("sig_notified", "no signal.Notify call in watchSignals")
+		return
+	}
+	o.f("Definition sig_notified : list Z := [%s]. (* %s/%s: signal.Notify arguments (signal numbers on linux) *)\n", strings.Join(sigs, "; "), dir, file)
+	o.f("Definition sig_chan_cap : Z := %d. (* capacity of the channel handed to signal.Notify (a signal arriving while it is full is dropped) *)\n", capacity)
+	// the loop
+	var loop *ast.ForStmt
+	for _, s := range fd.Body.List {
+		if fs, ok := s.(*ast.ForStmt); ok && fs.Cond == nil && fs.Init == nil && fs.Post == nil {
+			loop = fs
+		}
+	}
+	var sw *ast.SwitchStmt
+	body := fd.Body.List
+	if loop != nil {
+		body = loop.Body.List
+	}
+	recvFirst := false
+	for i, s := range body {
+		if as, ok := s.(*ast.AssignStmt); ok && i == 0 && c14norm(printNode(p.fset, as)) == "sig := <-ch" {
+			recvFirst = true
+		}
+		if x, ok := s.(*ast.SwitchStmt); ok && sw == nil {
+			sw = x
+		}
+	}
+	o.f("Definition sig_loop_forever : bool := %v. (* the receive `sig := <-ch` and the switch sit in `for { }` *)\n", loop != nil && recvFirst && sw != nil)
+	if sw == nil || sw.Tag != nil || sw.Init != nil {
+		o.brokenDef("sig_action", "watchSignals: no tagless switch after the receive")
+		return
+	}
+	fs := funcSpec{dir: dir, coqName: "sig_action", leaves: map[string]string{"sig": "sig", "already": "already"},
+		types: map[string]string{"already": "bool", "!already": "bool"}}
+	for n, v := range c14SigNum {
+		fs.leaves[n] = strconv.Itoa(v)
+	}
+	t := o.newTr(p, fs)
+	exitCode := int64(-1)
+	classify := func(list []ast.Stmt) (string, bool) {
+		act, sets, bad := 0, false, ""
+		for _, s := range list {
+			switch x := s.(type) {
+			case *ast.GoStmt:
+				closes := false
+				ast.Inspect(x, func(y ast.Node) bool {
+					if ce, ok := y.(*ast.CallExpr); ok && printNode(p.fset, ce.Fun) == "srv.Close" {
+						closes = true
+					}
+					return true
+				})
+				if closes {
+					if act != 0 {
+						bad = "two actions in one case"
+					}
+					act = 1
+				}
+			case *ast.AssignStmt:
+				switch c14norm(printNode(p.fset, x)) {
+				case "already = true":
+					sets = true
+				default:
+					if strings.Contains(printNode(p.fset, x), "srv.Close") {
+						act = 3
+					} else if strings.HasPrefix(c14norm(printNode(p.fset, x)), "already") {
+						bad = "unexpected assignment " + printNode(p.fset, x)
+					}
+				}
+			default:
+				ast.Inspect(s, func(y ast.Node) bool {
+					if _, ok := y.(*ast.FuncLit); ok {
+						return false
+					}
+					if ce, ok := y.(*ast.CallExpr); ok {
+						switch printNode(p.fset, ce.Fun) {
+						case "srv.Close":
+							if act != 0 {
+								bad = "two actions in one case"
+							}
+							act = 3
+						case "os.Exit":
+							if act != 0 {
+								bad = "two actions in one case"
+							}
+							act = 2
+							if len(ce.Args) == 1 {
+								if v, err := evalConst(dir, ce.Args[0], 0); err == nil {
+									exitCode = v.i
+								}
+							}
+						}
+					}
+					return true
+				})
+			}
+		}
+		if bad != "" {
+			t.fail("%s", bad)
+		}
+		return fmt.Sprintf("(%d, %v)", act, "ALREADY"), sets
+	}
+	res := "(0, already)"
+	var deflt *ast.CaseClause
+	var clauses []*ast.CaseClause
+	for _, c := range sw.Body.List {
+		cc := c.(*ast.CaseClause)
+		if cc.List == nil {
+			deflt = cc
+		} else {
+			clauses = append(clauses, cc)
+		}
+	}
+	mk := func(cc *ast.CaseClause) string {
+		r, sets := classify(cc.Body)
+		if sets {
+			return strings.Replace(r, "ALREADY", "true", 1)
+		}
+		return strings.Replace(r, "ALREADY", "already", 1)
+	}
+	if deflt != nil {
+		res = mk(deflt)
+	}
+	var srcs []string
+	for i := len(clauses) - 1; i >= 0; i-- {
+		cc := clauses[i]
+		var conds []string
+		for _, ce := range cc.List {
+			conds = append(conds, t.expr(ce))
+			srcs = append([]string{c14norm(printNode(p.fset, ce))}, srcs...)
+		}
+		res = "(if " + strings.Join(conds, " || ") + " then " + mk(cc) + " else " + res + ")"
+	}
+	if t.err != nil {
+		o.brokenDef("sig_action", t.err.Error())
+		return
+	}
+	o.f("Definition sig_action (sig : Z) (already : bool) : Z * bool :=\n  %s.\n(* from %s/%s %s: cases %s ; action 0 nothing, 1 go srv.Close(), 3 srv.Close() on the watcher, 2 os.Exit *)\n",
+		res, dir, file, name, strings.Join(srcs, " | "))
+	o.f("Definition sig_exit_code : Z := %d. (* argument of os.Exit in watchSignals *)\n", exitCode)
+	h := sha256.Sum256([]byte(c14norm(printNode(p.fset, fd))))
+	fingers[dir+":."+name+"@unix"] = hex.EncodeToString(h[:8])
+}
+
+// c14CondOfInit: translate the condition of the if statement whose init statement contains `initMarker`
+func (o *out) c14CondOfInit(fs funcSpec, initMarker string) {
+	p, fd := findFunc(fs.dir, fs.recv, fs.name)
+	if fd == nil {
+		o.brokenDef(fs.coqName, "function "+fs.dir+":"+fs.recv+"."+fs.name+" not found")
+		return
+	}
+	var found ast.Expr
+	ast.Inspect(fd.Body, func(n ast.Node) bool {
+		if is, ok := n.(*ast.IfStmt); ok && found == nil && is.Init != nil && strings.Contains(printNode(p.fset, is.Init), initMarker) {
+			found = is.Cond
+		}
+		return found == nil
+	})
+	if found == nil {
+		o.brokenDef(fs.coqName, "no `if "+initMarker+"; ...` in "+fs.name)
+		return
+	}
+	t := o.newTr(p, fs)
+	c := t.expr(found)
+	if t.err != nil {
+		o.brokenDef(fs.coqName, t.err.Error())
+		return
+	}
+	o.f("Definition %s %s : %s :=\n  %s.\n(* from %s:%s.%s : if %s; %s *)\n", fs.coqName, fs.params, fs.retType, c, fs.dir, fs.recv, fs.name, initMarker, printNode(p.fset, found))
+}
+
 func init() {
 	selectorConsts["math.MaxInt64"] = cval{i: 1<<63 - 1}
 	generators["C14_gen"] = func(o *out) {
@@ -683,6 +1165,31 @@ func init() {
 		// daemon.Serve: [Go Serve Wait]; Serve runs inside the errgroup and the caller waits for it
 		o.callOrder("server/daemon", "Daemon", "Serve", "daemon_serve_calls", []string{"Go", "Serve", "Wait"})
 		o.c14InsideClosure("server/daemon", "Daemon", "Serve", "d.eg.Go", []string{"httpServer.Serve"}, "daemon_serve_in_group")
+		// ---------------- (c') the PROCESS: serveCmd blocks on Daemon.Serve (errgroup Wait) while watchSignals runs Daemon.Close
+		// on another goroutine; statement-level translation of the three bodies into thread programs
+		{
+			dv := map[string]int{"d.httpServer.Serve": 1, "d.httpServer.Shutdown": 2, "d.server.Close": 3, "d.eg.Wait": 4, "d.httpServer.Close": 11}
+			pc, fc := findFunc("server/daemon", "Daemon", "Close")
+			o.c14Prog(pc, fc, "server/daemon:Daemon.Close", dv, "daemon_close_prog")
+			ps, fsv := findFunc("server/daemon", "Daemon", "Serve")
+			o.c14Prog(ps, fsv, "server/daemon:Daemon.Serve", dv, "daemon_serve_prog")
+			pm, fm := c14FindFuncInFile("cmdline/servecmd", "servecmd.go", "serveCmd")
+			o.c14Prog(pm, fm, "cmdline/servecmd:serveCmd", map[string]int{"watchSignals": 5, "srv.Serve": 6, "listenDebug": 7, "MakeServer": 8}, "servecmd_prog")
+			// Shutdown gets the context with the timeout, which is cancelled only when Close returns
+			o.c14CallArgs("server/daemon", "Daemon", "Close", "d.httpServer.Shutdown", []string{"ctx"}, "daemon_shutdown_gets_ctx")
+			o.c14CallArgIs("server/daemon", "Daemon", "Close", "context.WithTimeout", 0, "context.Background()", "daemon_ctx_from_background")
+			o.hasStmt("server/daemon", "Daemon", "Close", "defer cancel()", "daemon_cancel_deferred")
+			o.c14CountCalls("server/daemon", "Daemon", "Close", "cancel", "daemon_cancel_calls")
+			// how the results travel: a listener's ErrServerClosed becomes nil; serveCmd fails only on another error
+			el := map[string]string{"err": "err", "nil": "0", "http.ErrServerClosed": "1"}
+			o.condOf(funcSpec{dir: "server/daemon", recv: "Daemon", name: "Serve", coqName: "serve_member_closed_is_nil", params: "(err : Z)", retType: "bool", leaves: el}, "err")
+			o.c14CondOfInit(funcSpec{dir: "cmdline/servecmd", recv: "", name: "serveCmd", coqName: "serve_err_fatal", params: "(err : Z)", retType: "bool", leaves: el}, "srv.Serve()")
+			o.hasStmt("server/daemon", "Daemon", "Serve", "return d.eg.Wait()", "daemon_serve_returns_wait")
+			o.c14ConstArg("cmdline/shared", "", "Fail", "os.Exit", 0, "fail_exit_code")
+			o.c14CallArgs("cmdline/servecmd", "", "serveCmd", "shared.Fail", []string{"err"}, "servecmd_fails_with_err")
+			o.c14Signals()
+			fingerprint("cmdline/servecmd", "", "serveCmd")
+		}
 		// server.Close: [close Close]: stop the health loop, then close every token
 		o.callOrder("server", "Server", "Close", "server_close_calls", []string{"close", "Close"})
 		o.selectArmExits("server", "Server", "healthCheckLoop", "s.Closed", "health_loop_exits_on_close")
